@@ -222,7 +222,7 @@ func specialC18(args []string) int {
 			if locked {
 				a = append(a, "-locked")
 			}
-			cmd := exec.Command(bin, a...)
+			cmd := exec.CommandContext(watchdogCtx(*budget), bin, a...)
 			cmd.Env = append(os.Environ(), "GOMAXPROCS=2")
 			out, err := cmd.Output()
 			mu.Lock()
@@ -267,7 +267,7 @@ func specialC18(args []string) int {
 		if i >= 5 {
 			break
 		}
-		c := exec.Command(bin, "replay", "-q", v.File)
+		c := exec.CommandContext(watchdogCtx(120), bin, "replay", "-q", v.File)
 		outb, _ := c.CombinedOutput()
 		if strings.Contains(string(outb), "VIOLATION property="+*prop) {
 			fmt.Printf("violation: class=%s %s\n", v.Class, v.Msg)
@@ -340,7 +340,7 @@ func specialC18(args []string) int {
 				"reach_warnings":      warnings,
 				"real_components":     []string{"generic (all arities via generated wrappers)", "ecs", "listener interface"},
 				"stubbed_components":  []string{},
-				"not_covered":         "Filter0/Query0 builders (Query0 only as the result of RemoveBatchQ), MapN relation getters other than through Map[T]",
+				"not_covered":         "Filter0.WithRelation (Filter0 is driven with With/Without/Exclusive/Register only)",
 			},
 			"assumptions": []string{"both worlds register the 14 component types in the same drawn order, so IDs coincide and masks can be compared directly"},
 		}
